@@ -318,6 +318,7 @@ fn c06_accessors(rep: &mut Report, r: &mut Rng, n: u64) {
             let mut p = crate::ctx::context_packet();
             // something else is already there
             p.add_option(opt, vec![9, 9, 9, 9, 9, 9]);
+
             if r.bool() {
                 let l: LinkedList<OptionValueU32> = vals.iter().map(|v| OptionValueU32(*v)).collect();
                 p.set_options_as(opt, l);
@@ -325,6 +326,21 @@ fn c06_accessors(rep: &mut Report, r: &mut Rng, n: u64) {
                 p.clear_option(opt);
                 for v in &vals {
                     p.add_option_as(opt, OptionValueU32(*v));
+                }
+            }
+            // other option numbers come and go meanwhile - among them numbers that collide with this one
+            // under small moduli (a presence filter, a bucket index): added, then cleared or emptied
+            let on = u16::from(opt);
+            for (j, d) in [64u16, 128, 256, 32, 1024, 8].into_iter().enumerate() {
+                let other = CoapOption::from(on.wrapping_add(d));
+                if other == opt {
+                    continue;
+                }
+                p.add_option(other, vec![0xAA]);
+                if j % 2 == 0 {
+                    p.clear_option(other);
+                } else {
+                    p.set_option(other, Default::default());
                 }
             }
             let raw: Vec<Vec<u8>> = p.get_option(opt).map(|l| l.iter().cloned().collect()).unwrap_or_default();
